@@ -423,7 +423,12 @@ _public_ int m_map_iterate(const m_map_t *m, m_map_cb fn, void *userptr) {
         }
         const size_t num_entries = m->length;
         const char *key = entry->key;
+        const map_elem *table = m->table;
         int rc = fn(userptr, entry->key, entry->data);
+        if (table != m->table) {
+            /* fn put enough entries to have the table reallocated: entry is gone with the old one */
+            return rc < 0 ? rc : -EACCES;
+        }
         if (rc < 0) {
             /* Stop right now with error */
             return rc;
